@@ -57,6 +57,9 @@ list_t              *snoopy_tsrm_threadRepo = &snoopy_tsrm_threadRepo_data;
  * Non-exported function prototypes
  */
 void                        snoopy_tsrm_init                      ();
+void                        snoopy_tsrm_atfork_prepare            ();
+void                        snoopy_tsrm_atfork_parent             ();
+void                        snoopy_tsrm_atfork_child              ();
 int                         snoopy_tsrm_doesThreadRepoEntryExist  (snoopy_tsrm_threadId_t threadId, int mutex_already_locked);
 snoopy_tsrm_threadId_t      snoopy_tsrm_getCurrentThreadId        ();
 listNode_t*                 snoopy_tsrm_getCurrentThreadRepoEntry ();
@@ -165,6 +168,64 @@ void snoopy_tsrm_init ()
     pthread_mutexattr_init   (&snoopy_tsrm_threadRepo_mutexAttr);
     pthread_mutexattr_settype(&snoopy_tsrm_threadRepo_mutexAttr, PTHREAD_MUTEX_RECURSIVE);
     pthread_mutex_init       (&snoopy_tsrm_threadRepo_mutex, &snoopy_tsrm_threadRepo_mutexAttr);
+
+    // Do not let fork() copy the mutex while some other thread is holding it
+    pthread_atfork(&snoopy_tsrm_atfork_prepare, &snoopy_tsrm_atfork_parent, &snoopy_tsrm_atfork_child);
+}
+
+
+
+/*
+ * snoopy_tsrm_atfork_*
+ *
+ * Description:
+ *     fork() handlers. The threadRepo mutex is held across fork(), which
+ *     guarantees that the child does not inherit a mutex that is locked by a
+ *     thread that does not exist in the child (which would block the child's
+ *     first exec() call forever).
+ *
+ * Params:
+ *     (none)
+ *
+ * Return:
+ *     void
+ */
+void snoopy_tsrm_atfork_prepare ()
+{
+    pthread_mutex_lock(&snoopy_tsrm_threadRepo_mutex);
+}
+
+void snoopy_tsrm_atfork_parent ()
+{
+    pthread_mutex_unlock(&snoopy_tsrm_threadRepo_mutex);
+}
+
+void snoopy_tsrm_atfork_child ()
+{
+    listNode_t *curNode;
+    listNode_t *nextNode;
+    snoopy_tsrm_threadData_t *tData;
+
+    // The mutex owner (as recorded by the mutex) does not exist here, start afresh
+    pthread_mutex_init(&snoopy_tsrm_threadRepo_mutex, &snoopy_tsrm_threadRepo_mutexAttr);
+
+    // Only the forking thread exists in the child and it is not inside Snoopy
+    // right now, therefore all the inherited threadRepo entries are stale.
+    curNode = snoopy_tsrm_threadRepo->first;
+    while (NULL != curNode) {
+        nextNode = curNode->next;
+        tData    = curNode->value;
+        if (NULL != tData) {
+            free(tData->inputdatastorage);
+            free(tData->configuration);
+            free(tData);
+        }
+        free(curNode);
+        curNode = nextNode;
+    }
+    snoopy_tsrm_threadRepo->first = NULL;
+    snoopy_tsrm_threadRepo->last  = NULL;
+    snoopy_tsrm_threadRepo->count = 0;
 }
 
 
